@@ -240,6 +240,7 @@ fn main() {
             let crashed = arg_flag(&args, "--crashed");
             let out = match Exec::open(sc, &dir, from) {
                 Ok(mut e) => {
+                    e.arm_crash(from);
                     if from > 0 || prev.is_some() {
                         e.after_restart(prev, crashed);
                     }
